@@ -763,6 +763,22 @@ def run_mask(spec, rec):
         "inert_ratio_prnc": np.array([float(f_inert.get_inert_ratio_prnc(c))
                                       for c in conts]),
     }
+    # single-event form with the centroid as numpy scalar types (what indexing a
+    # feature array of a file yields): same result as with the same python floats
+    for c, x, y in list(zip(conts, px, py))[:2]:
+        for tag, conv in (("float32", np.float32),
+                          ("int64", lambda v: np.int64(round(v)))):
+            xs, ys = conv(x), conv(y)
+            want = np.asarray(f_volume.get_volume(c, float(xs), float(ys), pix))
+            gotv = np.asarray(f_volume.get_volume(c, xs, ys, pix))
+            # (float32 scalars make dclab's own arithmetic single precision)
+            tol = 1e-4 * max(abs(float(want)), 100 * pix ** 3) \
+                if np.isfinite(want) else 0
+            rec.check(gotv.shape == want.shape
+                      and np.allclose(gotv, want, rtol=0, atol=tol, equal_nan=True),
+                      f"volume/centroid-scalar-type/{tag}",
+                      lambda: f"get_volume with {tag} centroid ({xs!r}, {ys!r}) gives "
+                              f"{gotv!r}, with python floats {want!r}")
     got = {
         "volume": f_volume.get_volume(list(conts), px, py, pix),
         "inert_ratio_raw": f_inert.get_inert_ratio_raw(list(conts)),
